@@ -367,17 +367,18 @@ Definition sstore_gas (cur orig v : N) (s : state) : N * state :=
 
 (* what follows a call or create opcode in the compiled code: POP, or REVERT unless it succeeded *)
 Definition epilogue (req ok : bool) (mem gas : N) (s : state) (burnt : N) : sres :=
+  let failb g := SHalt (mkRes Failed g s 0 burnt) in   (* burnt: ghost, dropped by the caller's revert *)
   if req then
     match charge (g_push G + g_jumpi G) gas with
-    | None => fail gas s
+    | None => failb gas
     | Some g1 =>
-      if ok then match charge (g_jumpdest G) g1 with Some g2 => SCont mem g2 s burnt | None => fail g1 s end
+      if ok then match charge (g_jumpdest G) g1 with Some g2 => SCont mem g2 s burnt | None => failb g1 end
       else match charge (g_push G + g_push G + g_revert G) g1 with
            | Some g2 => SHalt (mkRes Reverted g2 s 0 burnt)
-           | None => fail g1 s
+           | None => failb g1
            end
     end
-  else match charge (g_pop G) gas with Some g1 => SCont mem g1 s burnt | None => fail gas s end.
+  else match charge (g_pop G) gas with Some g1 => SCont mem g1 s burnt | None => failb gas end.
 
 Definition step (runf : runner) (cx : ctx) (a : act) (mem gas : N) (s : state) : sres :=
   let self := c_self cx in
